@@ -168,6 +168,18 @@ CHECKS['C07'] = dict(
     technique="Coq freshness theorems over a byte-exact generator model + adversarial renaming oracle",
     design="6.C07")
 
+CHECKS['C08'] = dict(
+    text="Cnl/Link.v models _link_two_atoms / _link_atom_to_attribute, ASPAtom attribute lookup and AttributeOrigin equality byte for byte "
+         "(function-level correspondence on random atoms: keys, shared attribute names, nested origins, pre-set values, collision lists). "
+         "Theorems for all origin chains and all atoms: is_same_origin relates only chains with the same root concept "
+         "(C08_same_origin_root); every write of the linker lands on a position whose attribute has the linked key's name and a same_origin "
+         "origin (C08_link_write_typed). Oracle: for every rule of every program, every variable the author did not write must occur only "
+         "at positions which get_symbols reports as the same attribute of the same root concept (clingo.ast). Partial: the global invariant "
+         "over the whole conversion is not proved; aggregate discriminants (matched by name only) are a recorded finding.",
+    note="Trusted: Coq kernel; clingo.ast; get_symbols as the position oracle (as the property states); author variables identified textually.",
+    technique="Coq theorems over a byte-exact linker model + position-type oracle from get_symbols",
+    design="6.C08")
+
 NOT_YET = {}
 
 
